@@ -5,7 +5,12 @@
 From Coq Require Import List String ZArith Bool.
 Import ListNotations.
 Require Import Verif.Common.LockEv Verif.Generated.SourceFacts.
+Require Verif.Model.C15.
 Open Scope string_scope.
 
 Lemma srv_scale_ok : srv_scale_lits = [100%Z].
+Proof. reflexivity. Qed.
+
+(* the tie to the C15 model *)
+Lemma srv_scale_matches_model : srv_scale_lits = [Verif.Model.C15.srv_scale].
 Proof. reflexivity. Qed.
